@@ -186,6 +186,12 @@ def catalogue(tier: str, seed: int, purpose: str = "all") -> list[dict]:
         for delta in range(2, 2**mu):
             for info in ("left", "right"):
                 out.append({"family": "bch", "mu": mu, "delta": delta, "info": info, "info_kind": info, "must_construct": delta in must})
+    if q:
+        # the larger fields (own modulus table entries): a few textbook design distances each
+        for mu, deltas in ((5, (3, 5, 7)), (6, (3, 5, 7))):
+            for delta in deltas:
+                for info in ("left", "right"):
+                    out.append({"family": "bch", "mu": mu, "delta": delta, "info": info, "info_kind": info, "must_construct": True})
     # RS-style
     for mu in ([2, 3] if q else [2, 3, 4]):
         for delta in range(2, 2**mu - 1):
